@@ -63,6 +63,10 @@ type c13Req struct {
 	Body    int         `json:"body"`
 	Stream  bool        `json:"stream"`
 	Gzip    bool        `json:"gzip"`
+	// Pause: milliseconds to wait before this request (≤ 30), so that request SEQUENCES can walk the
+	// state machines of the resilience policies (circuit breaker Open → HalfOpen after
+	// waitDurationInOpenState, rate limiter cycles).
+	Pause int `json:"pause,omitempty"`
 }
 
 type c13Input struct {
@@ -157,7 +161,16 @@ func c13Walk(v interface{}, out map[string]c13Str) {
 
 func c13Site(stack string) string {
 	const pre = "github.com/megaease/easegress/pkg/"
-	for _, ln := range strings.Split(stack, "\n") {
+	lines := strings.Split(stack, "\n")
+	// A panic raised in a deferred function while another panic unwinds is on top of the stack; the
+	// root cause is the frame below the LAST (= chronologically first) panic entry.
+	root := 0
+	for i, ln := range lines {
+		if strings.HasPrefix(ln, "panic(") || strings.HasPrefix(ln, "runtime.goPanic") || strings.HasPrefix(ln, "runtime.panic") || strings.HasPrefix(ln, "runtime.sigpanic") {
+			root = i
+		}
+	}
+	for _, ln := range lines[root:] {
 		if !strings.HasPrefix(ln, pre) {
 			continue
 		}
@@ -239,6 +252,13 @@ func c13Handle(p *Pipeline, rq c13Req) string {
 // c13HandleWith builds the request and its context and lets `run` serve it (Pipeline.Handle here,
 // GlobalFilter.Handle around a pipeline in the objects harness).
 func c13HandleWith(rq c13Req, run func(ctx *context.Context) string) string {
+	if rq.Pause > 0 {
+		ms := rq.Pause
+		if ms > 30 {
+			ms = 30
+		}
+		time.Sleep(time.Duration(ms) * time.Millisecond)
+	}
 	method := rq.Method
 	if method == "" {
 		method = "GET"
@@ -1149,9 +1169,73 @@ func (g *c13G) filter(kind, name string) c13M {
 // case); mix the seed in again so that different seeds give different cases.
 var c13SeedMix = verifh.NewRand(verifh.Env().Seed ^ 0x5DEECE66D).U64()
 
+// c13GenWalk: the resilience-walk stream. An accepted pipeline [RateLimiter?] → Proxy whose only backend
+// refuses connections (every call fails with a network error), a CircuitBreaker policy at the boundary
+// values validation accepts (0 and 1 for every count / size, thresholds 1 and 100, both window types,
+// waits of 0s–2ms so that Open → HalfOpen happens inside the case), optionally a Retry policy with tiny
+// waits, and a SEQUENCE of 4–8 requests with pauses of 0–6 ms.
+func c13GenWalk(g *c13G) c13Input {
+	cb := c13M{"name": "cb", "kind": "CircuitBreaker", "countingNetworkError": !g.maybe(6)}
+	if g.maybe(2) {
+		cb["slidingWindowType"] = g.pick("COUNT_BASED", "TIME_BASED")
+	}
+	cb["slidingWindowSize"] = g.r.PickInt(1, 1, 2, 3)
+	if g.maybe(2) {
+		cb["failureRateThreshold"] = g.r.PickInt(1, 50, 100)
+	}
+	if g.maybe(3) {
+		cb["slowCallRateThreshold"] = g.r.PickInt(1, 100)
+	}
+	if !g.maybe(4) {
+		cb["minimumNumberOfCalls"] = g.r.PickInt(0, 0, 1, 1, 2)
+	}
+	if !g.maybe(4) {
+		cb["permittedNumberOfCallsInHalfOpenState"] = g.r.PickInt(0, 1, 1, 2, 3)
+	}
+	cb["waitDurationInOpenState"] = g.pick("0s", "1ms", "1ms", "2ms", "1ns")
+	if g.maybe(2) {
+		cb["maxWaitDurationInHalfOpenState"] = g.pick("0s", "1ms", "3ms")
+	}
+	if g.maybe(3) {
+		cb["slowCallDurationThreshold"] = g.pick("1ns", "1ms", "0s")
+	}
+	res := []interface{}{cb}
+	pool := c13M{"servers": []interface{}{c13M{"url": "http://127.0.0.1:1"}}, "circuitBreakerPolicy": "cb"}
+	if g.maybe(2) {
+		rt := c13M{"name": "r", "kind": "Retry", "maxAttempts": g.r.PickInt(1, 2, 3), "waitDuration": g.pick("1ms", "1ns", "2ms")}
+		if g.maybe(2) {
+			rt["backOffPolicy"] = g.pick("random", "exponential")
+		}
+		if g.maybe(2) {
+			rt["randomizationFactor"] = []interface{}{0, 0.5, 1}[g.r.Intn(3)]
+		}
+		res = append(res, rt)
+		pool["retryPolicy"] = "r"
+	}
+	if g.maybe(3) {
+		pool["timeout"] = g.pick("1ms", "5ms")
+	}
+	fs := []interface{}{}
+	if g.maybe(3) {
+		pol := c13M{"name": "p", "limitForPeriod": g.r.PickInt(1, 1, 2), "limitRefreshPeriod": g.pick("1ms", "2ms", "1ns"), "timeoutDuration": g.pick("0s", "1ms", "1ns")}
+		fs = append(fs, c13M{"name": "rl", "kind": "RateLimiter", "policies": []interface{}{pol}, "defaultPolicyRef": "p",
+			"urls": []interface{}{c13M{"url": c13M{"prefix": "/"}, "policyRef": "p"}}})
+	}
+	fs = append(fs, c13M{"name": "px", "kind": "Proxy", "pools": []interface{}{pool}})
+	spec := c13M{"resilience": res, "filters": fs}
+	reqs := []c13Req{}
+	for k, n := 0, 4+g.r.Intn(5); k < n; k++ {
+		reqs = append(reqs, c13Req{Method: g.pick("GET", "POST"), Path: g.pick("/a", "/b"), Pause: g.r.PickInt(0, 0, 2, 3, 6)})
+	}
+	return c13Input{Spec: spec, Reqs: reqs}
+}
+
 func c13Gen(r0 *verifh.Rand, i int) interface{} {
 	r := verifh.NewRand(r0.U64() ^ c13SeedMix)
 	g := &c13G{r: r, bad: r.PickInt(10, 20, 20, 40, 40, 100)}
+	if g.maybe(5) {
+		return c13GenWalk(g)
+	}
 	spec := c13M{}
 	// resilience first: proxies refer to it
 	if g.maybe(2) {
